@@ -40,6 +40,12 @@ theorem C20_skeletons :
   intro op
   cases op <;> (simp only [factProgs, expectedProgs]; decide)
 
+/-- GenericConcurrentSets (generic_concurrent_set.go) is ConcurrentSets over a type parameter: the same primitive per
+    method, so the theorems about put/exists_/remove are about both -/
+theorem C20_generic_set_same :
+    ∀ name, name ∈ ["Put", "Exists", "Remove"] →
+      methodProg Facts.genericConcurrentSetMethods name = methodProg Facts.concurrentSetMethods name := by decide
+
 theorem scanCfg_joined : scanCfg.Joined := by
   unfold scanCfg; rw [C20_skeletons.1]; exact ⟨rfl, rfl, rfl, rfl⟩
 
